@@ -82,6 +82,9 @@ func (s *Supply) MarkersPresent() int {
 // in a fresh working directory below base. entry 0 = InTotoVerify (inspections
 // run in the process working directory), 1 = InTotoVerifyWithDirectory.
 // The process working directory is changed (callers are single-threaded workers).
+// SummaryName is passed as the step name of the summary link by VerifyAt ("" by default).
+var SummaryName string
+
 func VerifyAt(base string, entry int, md intoto.Metadata, keys map[string]intoto.Key, linkDir string,
 	params map[string]string, inter [][]byte) (intoto.Metadata, error) {
 	cwd := FreshDir(base, "cwd")
@@ -93,12 +96,12 @@ func VerifyAt(base string, entry int, md intoto.Metadata, keys map[string]intoto
 		params = map[string]string{}
 	}
 	if entry == 0 {
-		return intoto.InTotoVerify(md, keys, linkDir, "", params, inter, false)
+		return intoto.InTotoVerify(md, keys, linkDir, SummaryName, params, inter, false)
 	}
 	run := FreshDir(base, "rundir")
 	// the entry point refuses an empty run directory
 	if err := os.WriteFile(filepath.Join(run, "present"), []byte("x"), 0o644); err != nil {
 		panic(err)
 	}
-	return intoto.InTotoVerifyWithDirectory(md, keys, linkDir, run, "", params, inter, false)
+	return intoto.InTotoVerifyWithDirectory(md, keys, linkDir, run, SummaryName, params, inter, false)
 }
